@@ -52,6 +52,10 @@ pub enum C03Case {
         /// PAYLOADDIGESTALGO carries 1 + algo_repeat (equal) items
         #[serde(default)]
         algo_repeat: u8,
+        /// number of trailing main-header records left outside the region (header digests cover
+        /// the whole header, not just the region)
+        #[serde(default)]
+        dribbles: u8,
     },
     /// one bit of hand-encoded base package `base` flipped
     BitFlip { base: u8, bit: u32 },
@@ -106,11 +110,11 @@ fn construct(payload: &[u8], name: &str, md5: &Option<Dk>, sha1: &Option<Dk>, sh
 
 #[allow(clippy::too_many_arguments)]
 fn construct_multi(payload: &[u8], name: &str, md5: &Option<Dk>, sha1: &Option<Dk>, sha256: &Option<Dk>, pd: &Option<(Dk, u32)>, order: &[u16], extra: &[bool]) -> Vec<u8> {
-    construct_full(payload, name, md5, sha1, sha256, pd, order, extra, 0, &[], 0)
+    construct_full(payload, name, md5, sha1, sha256, pd, order, extra, 0, &[], 0, 0)
 }
 
 #[allow(clippy::too_many_arguments)]
-fn construct_full(payload: &[u8], name: &str, md5: &Option<Dk>, sha1: &Option<Dk>, sha256: &Option<Dk>, pd: &Option<(Dk, u32)>, order: &[u16], extra: &[bool], size_tags: u8, trailing: &[u8], algo_repeat: u8) -> Vec<u8> {
+fn construct_full(payload: &[u8], name: &str, md5: &Option<Dk>, sha1: &Option<Dk>, sha256: &Option<Dk>, pd: &Option<(Dk, u32)>, order: &[u16], extra: &[bool], size_tags: u8, trailing: &[u8], algo_repeat: u8, dribbles: u8) -> Vec<u8> {
     let mut main = filepkg::basic_entries(name);
     if let Some((k, algo)) = pd {
         let correct = digests::sha256_hex(&[payload]);
@@ -125,7 +129,7 @@ fn construct_full(payload: &[u8], name: &str, md5: &Option<Dk>, sha1: &Option<Dk
     }
     main.sort_by_key(|e| e.0);
     permute(&mut main, order, 3);
-    let hdr = fmt::layout(&main, Some(fmt::TAG_HEADERIMMUTABLE));
+    let hdr = fmt::layout_with_dribbles(&main, Some(fmt::TAG_HEADERIMMUTABLE), dribbles as usize);
     let hb = hdr.bytes();
     let mut sig = vec![];
     if let Some(k) = sha1 {
@@ -269,7 +273,7 @@ impl Property for C03 {
         ]
     }
     fn required_labels(&self, _t: Tier) -> Vec<&'static str> {
-        vec!["multi-item-digest-algo", "size-tag-smaller-than-file", "multi-item-payload-digest", "permuted-index", "expect-ok", "expect-mismatch", "expect-anyerr", "only-md5-wrong", "only-sha1-wrong", "only-sha256-wrong", "only-payload-wrong", "algo-known-unsupported", "algo-unknown", "bitflip"]
+        vec!["records-outside-region", "multi-item-digest-algo", "size-tag-smaller-than-file", "multi-item-payload-digest", "permuted-index", "expect-ok", "expect-mismatch", "expect-anyerr", "only-md5-wrong", "only-sha1-wrong", "only-sha256-wrong", "only-payload-wrong", "algo-known-unsupported", "algo-unknown", "bitflip"]
     }
     fn phases(&self, tier: Tier) -> Vec<Phase<C03Case>> {
         let bits: Vec<(u8, u32)> = self.flip_bases.iter().enumerate().flat_map(|(i, b)| (0..b.len() as u32 * 8).map(move |bit| (i as u8, bit))).collect();
@@ -282,8 +286,8 @@ impl Property for C03 {
                 cases: tier.pick(400_000, 40_000_000),
                 strat: Arc::new(|| {
                     let algo = prop_oneof![6 => Just(8u32), 2 => proptest::sample::select(vec![1u32, 9, 10, 11, 12, 14]), 2 => proptest::sample::select(vec![0u32, 2, 3, 7, 13, 255, u32::MAX]), 1 => any::<u32>()];
-                    (proptest::collection::vec(any::<u8>(), 0..40), "[a-z]{1,8}", proptest::option::weighted(0.6, dk()), proptest::option::weighted(0.6, dk()), proptest::option::weighted(0.7, dk()), proptest::option::weighted(0.6, (dk(), algo)), prop_oneof![2 => Just(vec![]), 1 => proptest::collection::vec(any::<u16>(), 12)], prop_oneof![4 => Just(vec![]), 1 => proptest::collection::vec(any::<bool>(), 1..3)], (prop_oneof![3 => Just(0u8), 2 => 1u8..6], prop_oneof![3 => Just(vec![]), 1 => proptest::collection::vec(any::<u8>(), 1..9)], prop_oneof![4 => Just(0u8), 1 => 1u8..3]))
-                        .prop_map(|(payload, name, md5, sha1, sha256, payload_digest, order, extra_payload_digests, (size_tags, trailing, algo_repeat))| C03Case::Constructed { payload, name, md5, sha1, sha256, payload_digest, order, extra_payload_digests, size_tags, trailing, algo_repeat })
+                    (proptest::collection::vec(any::<u8>(), 0..40), "[a-z]{1,8}", proptest::option::weighted(0.6, dk()), proptest::option::weighted(0.6, dk()), proptest::option::weighted(0.7, dk()), proptest::option::weighted(0.6, (dk(), algo)), prop_oneof![2 => Just(vec![]), 1 => proptest::collection::vec(any::<u16>(), 12)], prop_oneof![4 => Just(vec![]), 1 => proptest::collection::vec(any::<bool>(), 1..3)], (prop_oneof![3 => Just(0u8), 2 => 1u8..6], prop_oneof![3 => Just(vec![]), 1 => proptest::collection::vec(any::<u8>(), 1..9)], prop_oneof![4 => Just(0u8), 1 => 1u8..3], prop_oneof![3 => Just(0u8), 1 => 1u8..4]))
+                        .prop_map(|(payload, name, md5, sha1, sha256, payload_digest, order, extra_payload_digests, (size_tags, trailing, algo_repeat, dribbles))| C03Case::Constructed { payload, name, md5, sha1, sha256, payload_digest, order, extra_payload_digests, size_tags, trailing, algo_repeat, dribbles })
                         .boxed()
                 }),
             },
@@ -292,7 +296,10 @@ impl Property for C03 {
     fn check(&self, case: &C03Case) -> Outcome {
         let mut o = Outcome::new();
         let bytes = match case {
-            C03Case::Constructed { payload, name, md5, sha1, sha256, payload_digest, order, extra_payload_digests, size_tags, trailing, algo_repeat } => {
+            C03Case::Constructed { payload, name, md5, sha1, sha256, payload_digest, order, extra_payload_digests, size_tags, trailing, algo_repeat, dribbles } => {
+                if *dribbles > 0 {
+                    o.label("records-outside-region");
+                }
                 if *algo_repeat % 3 != 0 && payload_digest.is_some() {
                     o.label("multi-item-digest-algo");
                 }
@@ -322,7 +329,7 @@ impl Property for C03 {
                         o.label("algo-unknown");
                     }
                 }
-                construct_full(payload, name, md5, sha1, sha256, payload_digest, order, extra_payload_digests, *size_tags, trailing, *algo_repeat)
+                construct_full(payload, name, md5, sha1, sha256, payload_digest, order, extra_payload_digests, *size_tags, trailing, *algo_repeat, *dribbles)
             }
             C03Case::BitFlip { base, bit } => {
                 o.label("bitflip");
